@@ -44,11 +44,11 @@ type Value struct {
 var Undefined = Value{}
 var Null = Value{K: KNull}
 
-func Bool(b bool) Value      { return Value{K: KBool, B: b} }
-func Num(n float64) Value    { return Value{K: KNumber, N: n} }
-func Str(s string) Value     { return Value{K: KString, S: s} }
-func SymV(y *Symbol) Value   { return Value{K: KSymbol, Y: y} }
-func ObjV(o *Object) Value   { return Value{K: KObject, O: o} }
+func Bool(b bool) Value       { return Value{K: KBool, B: b} }
+func Num(n float64) Value     { return Value{K: KNumber, N: n} }
+func Str(s string) Value      { return Value{K: KString, S: s} }
+func SymV(y *Symbol) Value    { return Value{K: KSymbol, Y: y} }
+func ObjV(o *Object) Value    { return Value{K: KObject, O: o} }
 func (v Value) IsUndef() bool { return v.K == KUndefined }
 func (v Value) IsObject() bool {
 	return v.K == KObject
